@@ -143,7 +143,10 @@ func NewTickDriver(mode string) *TickDriver {
 		}
 		add(tickOp{kind: "delNode", k: -1, signer: "A"}, tickOp{kind: "updStateIR", k: -1, state: 1, signer: "A"}, tickOp{kind: "updStateIR", k: -1, state: 3, signer: "A"},
 			tickOp{kind: "updState", k: -1, state: 1, signer: "A"}, tickOp{kind: "addNode", k: -1, signer: "A"}, tickOp{kind: "shortBlob", signer: "A"},
-			tickOp{kind: "addNodeOffline", k: 0, signer: "AN"})
+			tickOp{kind: "addNodeOffline", k: 0, signer: "AN"},
+			// a candidate announced with any state but Online: Offline, the unnamed zero, a number outside the enumeration, a negative one
+			tickOp{kind: "addNodeSt", k: 0, state: 2, signer: "AN"}, tickOp{kind: "addNodeSt", k: 0, state: 0, signer: "AN"},
+			tickOp{kind: "addNodeSt", k: 0, state: 42, signer: "AN"}, tickOp{kind: "addNodeSt", k: 0, state: -1, signer: "AN"})
 	case "C06":
 		for k := 0; k < 2; k++ {
 			add(tickOp{kind: "addPeerIR", k: k, signer: "A"}, tickOp{kind: "addNode", k: k, signer: "AN"},
@@ -254,6 +257,8 @@ func (d *TickDriver) OpName(n *Node, i int) string {
 		return "next block"
 	case "shortBlob":
 		return "addPeerIR(10-byte blob) by A"
+	case "addNodeSt":
+		return fmt.Sprintf("addNode(K%d,state=%d) by %s", o.k, o.state, o.signer)
 	case "addPeer", "addPeerIR", "addNode", "addNodeOffline":
 		return fmt.Sprintf("%s(K%d,v%d) by %s", o.kind, o.k, o.ver, o.signer)
 	case "delNode":
@@ -372,10 +377,13 @@ func (d *TickDriver) Step(x *Exec, n *Node, i int) StepResult {
 	case "shortBlob":
 		scr = Script(h, "addPeerIR", make([]byte, 10))
 		expHalt = false
-	case "addNode", "addNodeOffline":
+	case "addNode", "addNodeOffline", "addNodeSt":
 		st := int64(1)
 		if o.kind == "addNodeOffline" {
 			st = 3
+		}
+		if o.kind == "addNodeSt" {
+			st = int64(o.state)
 		}
 		scr = Script(h, "addNode", []any{[]any{d.addr(o.ver)}, stackitem.NewMap(), key, st})
 		if !(alpha && node) || o.k < 0 || st != 1 {
